@@ -39,4 +39,36 @@ theorem extrasP_extras {α : Type} [DecidableEq α] : ∀ (p : Option α) (a b :
       obtain ⟨e', he', rfl⟩ := h
       exact ⟨e'.map (·.2), extrasP_extras _ _ _ _ he', by simp⟩
 
+
+/-- the greedy matcher's surplus is the multiset difference -/
+theorem extras_count {α : Type} [DecidableEq α] : ∀ (a b e : List α), extras a b = some e →
+    ∀ z, b.count z = a.count z + e.count z
+  | [], b, e, h => by
+    simp [extras] at h; subst h; simp
+  | _ :: _, [], e, h => by simp [extras] at h
+  | x :: a, y :: b, e, h => by
+    unfold extras at h
+    intro z
+    by_cases hxy : x = y
+    · simp only [hxy, if_true] at h
+      have := extras_count a b e h z
+      subst hxy
+      simp only [List.count_cons]
+      omega
+    · simp only [hxy, if_false, Option.map_eq_some_iff] at h
+      obtain ⟨e', he', rfl⟩ := h
+      have := extras_count (x :: a) b e' he' z
+      simp only [List.count_cons] at this ⊢
+      omega
+
+/-- when `b` is `a` with `seg` spliced in, every surplus element the matcher reports is an element of `seg` -/
+theorem extras_mem_of_splice {α : Type} [DecidableEq α] (p sfx seg e : List α)
+    (h : extras (p ++ sfx) (p ++ seg ++ sfx) = some e) : ∀ x ∈ e, x ∈ seg := by
+  intro x hx
+  have hc := extras_count _ _ _ h x
+  simp only [List.count_append] at hc
+  have : 0 < e.count x := List.count_pos_iff.mpr hx
+  have : 0 < seg.count x := by omega
+  exact List.count_pos_iff.mp this
+
 end Vsgm.Lemmas
